@@ -269,7 +269,8 @@ def _run_specs(specs, mode, work, viols, outcomes):
         if text:
             tag["source"] = text
         oc = roundtrip(p, viols, tag, work=work)
-        outcomes[oc] = outcomes.get(oc, 0) + 1
+        lab = "%s:%s:%s" % (oc.split(" ")[0], mode, _what(tag))
+        outcomes[lab] = outcomes.get(lab, 0) + 1
         sample = tag
         if len(viols) > 80:
             del viols[80:]
